@@ -536,7 +536,7 @@ func c02CopierStateFresh(c *Ctx, cp *copier, rule string) {
 			}
 			for i := 0; i < st.NumFields(); i++ {
 				fld := st.Field(i)
-				v := litField(al, fld.Name())
+				v := litField(al, vname(fld))
 				switch fld.Type().Underlying().(type) {
 				case *types.Map:
 					if _, isMake := v.(*ssa.MakeMap); !isMake {
@@ -677,7 +677,7 @@ func c03OverlayNotRecopied(c *Ctx, cp *copier, rule string) {
 	w := c.W
 	n := 0
 	for _, f := range w.funcsIn("") {
-		if f.Signature.Recv() == nil || !strings.HasSuffix(types.TypeString(f.Signature.Recv().Type(), nil), "overlayer") || len(f.Params) < 3 {
+		if f.Signature.Recv() == nil || namedTypeName(f.Signature.Recv().Type()) != ".overlayer" || len(f.Params) < 3 {
 			continue
 		}
 		ov := ssa.Value(f.Params[len(f.Params)-1])
